@@ -577,6 +577,14 @@ func (n *Node) WriteFrameExcept(exceptChannel *Channel, fr frame.Frame) error {
 }
 
 func (n *Node) pushEvent(evt Event) {
+	// once the node is terminating, do not deliver further events:
+	// earlier events of the same channel might have been dropped.
+	select {
+	case <-n.terminate:
+		return
+	default:
+	}
+
 	select {
 	case n.chEvent <- evt:
 	case <-n.terminate:
